@@ -109,20 +109,8 @@ Section Values.
   Definition var_val (v : mvar) : N * T :=
     (fst v, match snd v with None => n1 | Some e => expo_val e end).
 
-  (* well-formedness: digit strings are digit strings, letters are ASCII letters,
-     denominators are non-zero (in the arithmetic at hand), a term is not empty *)
-  Definition wf_frac (a b : dec) : bool := wf_dec a && wf_dec b && nneb (dec_val b) n0.
-  Definition wf_coef (c : coef) : bool :=
-    match c with CDec d => wf_dec d | CFrac a b => wf_frac a b end.
-  Definition wf_expo (e : expo) : bool :=
-    match snd e with EDec d => wf_dec d | EFrac a b => wf_frac a b end.
-  Definition wf_var (v : mvar) : bool :=
-    is_ascii_letter (fst v) && match snd v with None => true | Some e => wf_expo e end.
-  Definition wf_term (t : mterm) : bool :=
-    match fst t with None => true | Some c => wf_coef c end
-    && forallb wf_var (snd t)
-    && negb (match fst t, snd t with None, [] => true | _, _ => false end).
-  Definition wf_src (src : msrc) : bool := forallb (fun x => wf_term (snd x)) src.
+  (* f64::is_finite in class operations (x - x = 0 exactly for finite x); always true in R and Z *)
+  Definition finite (x : T) : bool := neqb (nsub x x) n0.
 
   (* exponents written on letter l, in source order, and their sum from the left *)
   Definition exps_of (l : N) (vs : list (N * T)) : list T :=
@@ -137,6 +125,33 @@ Section Values.
     {| t_coef := coef_val (fst x) (fst (snd x));
        t_vars := canon_vars (map var_val (snd (snd x))) |}.
   Definition terms_of (src : msrc) : list (term T) := map term_of src.
+
+  (* well-formedness.  Syntactic part: digit strings are digit strings, letters are ASCII
+     letters, a term is not empty.  Arithmetic part, "in the arithmetic at hand": denominators
+     are non-zero and finite, every numeral, quotient and summed exponent is finite (nothing to
+     check in R; in binary64 it excludes numerals beyond 1.8e308 and denominators that underflow
+     to 0).  The sign of the term belongs to its coefficient ("-3/4" is (-3)/4). *)
+  Definition wf_frac (neg : bool) (a b : dec) : bool :=
+    wf_dec a && wf_dec b && nneb (dec_val b) n0 && finite (dec_val b)
+    && finite (ndiv (signed neg (dec_val a)) (dec_val b)).
+  Definition wf_coef (neg : bool) (c : coef) : bool :=
+    match c with
+    | CDec d => wf_dec d && finite (signed neg (dec_val d))
+    | CFrac a b => wf_frac neg a b
+    end.
+  Definition wf_expo (e : expo) : bool :=
+    match snd e with
+    | EDec d => wf_dec d && finite (signed (fst e) (dec_val d))
+    | EFrac a b => wf_frac (fst e) a b
+    end.
+  Definition wf_var (v : mvar) : bool :=
+    is_ascii_letter (fst v) && match snd v with None => true | Some e => wf_expo e end.
+  Definition wf_term (x : bool * mterm) : bool :=
+    match fst (snd x) with None => true | Some c => wf_coef (fst x) c end
+    && forallb wf_var (snd (snd x))
+    && negb (match fst (snd x), snd (snd x) with None, [] => true | _, _ => false end)
+    && forallb (fun vp => finite (snd vp)) (t_vars (term_of x)).
+  Definition wf_src (src : msrc) : bool := forallb wf_term src.
 End Values.
 
 (* strict order of variable names (Rust String order on single-letter names) *)
